@@ -53,7 +53,33 @@ func dialects() []struct {
 	}
 }
 
+// skipKinds maps the model's change kinds to the policy's change types: exactly the kinds the CLI's diff.skip block can disable
+// (cmdapi.SkipChanges) that the model produces; primary-key and check changes are not skippable by policy.
+var skipKinds = map[string]schema.Change{
+	"AddTable": &schema.AddTable{}, "DropTable": &schema.DropTable{}, "ModifyTable": &schema.ModifyTable{},
+	"AddColumn": &schema.AddColumn{}, "DropColumn": &schema.DropColumn{}, "ModifyColumn": &schema.ModifyColumn{},
+	"AddIndex": &schema.AddIndex{}, "DropIndex": &schema.DropIndex{}, "ModifyIndex": &schema.ModifyIndex{},
+	"AddFK": &schema.AddForeignKey{}, "DropFK": &schema.DropForeignKey{}, "ModifyFK": &schema.ModifyForeignKey{},
+}
+
+// filterSkip: the reference's DiffSpecSkip on the rendered descriptors.
+func filterSkip(want []string, kinds map[string]bool) []string {
+	out := []string{}
+	for _, w := range want {
+		p := strings.Fields(w)
+		if kinds[p[0]] {
+			continue
+		}
+		if p[0] == "ModifyTable" && len(p) > 2 && kinds[p[2]] {
+			continue
+		}
+		out = append(out, w)
+	}
+	return out
+}
+
 func main() {
+	skipMode := len(os.Args) > 2 && os.Args[2] == "skip"
 	f, err := os.Open(os.Args[1])
 	if err != nil {
 		panic(err)
@@ -86,6 +112,7 @@ func main() {
 				}
 				classes[cl]++
 			}
+			var extra []schema.DiffOption
 			run := func(mode string, from, to *schema.Schema, want []string) {
 				diffs++
 				var (
@@ -95,7 +122,7 @@ func main() {
 				)
 				func() {
 					defer func() { pan = recover() }()
-					changes, err = d.differ.SchemaDiff(from, to, schema.DiffNormalized())
+					changes, err = d.differ.SchemaDiff(from, to, append([]schema.DiffOption{schema.DiffNormalized()}, extra...)...)
 				}()
 				got := absmodel.Project(changes)
 				if want == nil {
@@ -116,6 +143,35 @@ func main() {
 						mism = append(mism, m)
 					}
 				}
+			}
+			if skipMode {
+				// every single kind that occurs in the expectation, and all drop kinds together
+				kindsIn := map[string]bool{}
+				for _, w := range want {
+					p := strings.Fields(w)
+					kindsIn[p[0]] = true
+					if p[0] == "ModifyTable" && len(p) > 2 {
+						kindsIn[p[2]] = true
+					}
+				}
+				sets := []map[string]bool{{"DropTable": true, "DropColumn": true, "DropIndex": true, "DropFK": true}}
+				for k := range kindsIn {
+					if _, ok := skipKinds[k]; ok {
+						sets = append(sets, map[string]bool{k: true})
+					}
+				}
+				for _, ks := range sets {
+					var cs []schema.Change
+					names := []string{}
+					for k := range ks {
+						cs = append(cs, skipKinds[k])
+						names = append(names, k)
+					}
+					extra = []schema.DiffOption{schema.DiffSkipChanges(cs...)}
+					run("skip:"+strings.Join(names, "+"), absmodel.Build(d.d, p.From, 0), absmodel.Build(d.d, p.To, 0), filterSkip(want, ks))
+				}
+				extra = nil
+				continue
 			}
 			run("edit", absmodel.Build(d.d, p.From, 0), absmodel.Build(d.d, p.To, 0), want)
 			// the same objects listed in another order: same change set
